@@ -23,6 +23,8 @@ Scopes
   upgma     upgma_tree() on ultrametric trees (dyadic node heights): rooted clade -> length table equal,
             same contraction; also through CSV.
 
+  random    seeded random 8-12 leaf trees: pdm, mrca, nj, upgma clauses as above.
+
 Not demanded: normalisation of *unweighted* summaries (the code divides by the number of nodes, the
 statement does not say by what); path_edges contents; start_node= of Tree.mrca; leaves without taxa.
 A one-leaf tree has no pairs: only the self-distance and mrca clauses apply to it.
